@@ -81,6 +81,7 @@ class Run:
         self.steps = 0
         self.nonterminating = False
         self.ecalls = 0
+        self.decode_stalls = 0
         self.per_step = []  # five-stage: (retired address | None, cycles, stalls, flushes) after each step
         self.ctx = None
 
@@ -138,6 +139,9 @@ def run_five(e, c, max_cycles, on_step=None, K=None):
                 if r.ecalls > MAX_DYNAMIC_ECALLS:
                     raise PathCut("more than %d executed ecalls" % MAX_DYNAMIC_ECALLS)
         r.per_step.append((a, pm.cycles, pm.stalls, pm.flushes))
+        stl = sim.state.pipeline.stalled
+        if stl is not None and stl[0] == 1:
+            r.decode_stalls += 1
         if on_step is not None:
             on_step(sim, r)
     return r
